@@ -86,6 +86,7 @@ ExternOracle(fn, rest) ==
     [] fn.o = "fail"   -> ExtErr("always fails")
     [] fn.o = "upper"  -> IF rest # <<>> /\ rest[1] \in 65..90 THEN ExtOk(VChar(rest[1]), 1)
                           ELSE ExtErr("expected upper case letter")
+    [] fn.o = "skip4g" -> ExtErr("expected 4 GiB of filler")   \* (no input of the model is that long)
     [] fn.o = "bang"   -> IF rest # <<>> /\ rest[1] = 33 THEN ExtPanic            \* '!': the function panics
                           ELSE LET d == DigitRun(rest) IN
                                IF d = <<>> THEN ExtErr("expected digits") ELSE ExtOk(VStr(d), Len(d))
